@@ -568,7 +568,14 @@ class Notes:
                 if not inside:
                     fail(r, ctx, f, ti.node, "the IndexError handler must be inside the loop (per datum); around the whole loop "
                                              "the first flag/open line aborts the scan and later lane lines of the tick are lost")
-                if len(ti.node.body) != 1:
+                def cannot_index(stmt_):
+                    # a plain assignment of an attribute chain / name / constant to a local: no subscript, no call, nothing that
+                    # could raise (let alone IndexError) apart from the AttributeError the store itself would raise as well
+                    if not (isinstance(stmt_, ast.Assign) and len(stmt_.targets) == 1 and isinstance(stmt_.targets[0], ast.Name)):
+                        return False
+                    return all(isinstance(n_, (ast.Attribute, ast.Name, ast.Constant, ast.Load)) for n_ in ast.walk(stmt_.value))
+                others = [b_ for b_ in ti.node.body if not any(n_ is st.node for n_ in ast.walk(b_))]
+                if len(ti.node.body) - len(others) != 1 or not all(cannot_index(b_) for b_ in others):
                     fail(r, ctx, f, ti.node, "the try body around the lane store contains other statements whose IndexError "
                                              "would be swallowed too")
                 for h in ti.node.handlers:
